@@ -76,7 +76,8 @@ def parseSample (j : Json) : Except String Sample := do
 open ResamplingHelper in
 def runHelper (j : Json) : Except String Json := do
   let cfg : Cfg := { period := ← getInt j "period", maxAge := ← getRat j "max_age",
-                     initLen := ← getNat j "init_len", maxLen := ← getNat j "max_len" }
+                     initLen := ← getNat j "init_len", maxLen := ← getNat j "max_len",
+                     warnLen := (j.getObjValAs? Nat "warn_len").toOption.getD (min 128 ((← getNat j "max_len") - 1)) }
   let mut h := init cfg
   let mut outs : Array Json := #[]
   for e in (← getArr j "events") do
